@@ -149,6 +149,51 @@ func C12(r *core.Run) {
 			}
 		}
 		r.CaseN(n, n)
+		// ---- stateful sweep: press, then every code/final, then a motion report ----
+		n = 0
+		for code := 0; code < 256; code++ {
+			ref := refMouse(code)
+			for _, fin := range []string{"M", "m"} {
+				s := fmt.Sprintf("\x1b[<0;3;3M\x1b[<%d;4;4%s\x1b[<32;5;5M", code, fin)
+				evs, left, pan := d.whole([]byte(s))
+				n++
+				if pan != nil || left != 0 || len(evs) != 3 || evs[0].T != "mouse" || evs[1].T != "mouse" || evs[2].T != "mouse" {
+					fail("sgr:count", fmt.Sprintf("reports %q decode to %s (leftover %d, panic %v), expected three mouse events", s, evsStr(evs), left, pan), s)
+					return
+				}
+				if evs[0].Btn != tcell.Button1 {
+					fail("sgr:buttons:press", fmt.Sprintf("reports %q: the press decodes to buttons %#x", s, int(evs[0].Btn)), s)
+					return
+				}
+				var want tcell.ButtonMask
+				defined := ref.identity && !(ref.motion && ref.wheel)
+				heldAfter := 1 // 1 held, 0 released, -1 unknown
+				switch {
+				case fin == "m":
+					want, defined, heldAfter = tcell.ButtonNone, true, 0
+				case ref.release:
+					want = tcell.ButtonNone
+					if !ref.motion {
+						heldAfter = -1 // a press report with code 3: never generated in SGR mode
+					}
+				default:
+					want = ref.btn
+				}
+				if defined && evs[1].Btn != want {
+					fail(fmt.Sprintf("sgr:buttons-after-press:%s", codeClass(code, fin)), fmt.Sprintf("reports %q: the second report decodes to buttons %#x, expected %#x", s, int(evs[1].Btn), int(want)), s)
+					return
+				}
+				if heldAfter == 0 && evs[2].Btn != tcell.ButtonNone {
+					fail("sgr:motion-after-release", fmt.Sprintf("reports %q: motion after the release still carries buttons %#x", s, int(evs[2].Btn)), s)
+					return
+				}
+				if heldAfter == 1 && evs[2].Btn != tcell.Button1 {
+					fail("sgr:motion-while-held", fmt.Sprintf("reports %q: motion while the button is held decodes to buttons %#x, expected Button1", s, int(evs[2].Btn)), s)
+					return
+				}
+			}
+		}
+		r.CaseN(n, n)
 		// ---- legacy X11 sweep ----
 		n = 0
 		step := 1
@@ -252,6 +297,9 @@ func C12(r *core.Run) {
 						b = map[tcell.ButtonMask]int{tcell.Button1: 0, tcell.Button3: 1, tcell.Button2: 2}[held]
 					}
 					code, fin = b+mod, "m"
+					if rg.IntN(3) == 0 {
+						code += 32 // a release reported while moving
+					}
 					held = tcell.ButtonNone
 					e.btn, e.none = tcell.ButtonNone, true
 				}
